@@ -1,4 +1,5 @@
 import FxVerif.Proofs.C11Tx
+import FxVerif.Proofs.C11Exact
 /-!
 # C11 — transferring delegation shares conserves shares, stake and reward entitlements
 
@@ -892,6 +893,39 @@ theorem multi_transferFrom_exact {s s' : State} {sp f t : Nat} (items : List (Na
   ⟨multi_aux items s s' hnd (execAll_AllOk _ s s' h),
    fun _ hw => multiFrom_frame cfg_good items s s' (execAll_AllOk _ s s' h) hw⟩
 
+/-! ### a closed form under which the stake sanity check cannot fire on a slashed validator -/
+
+/-- **slash_fraction_closed_form.**  The fraction staking `Slash` records for a burn of `burn` out of `T` tokens
+(`effFraction burn T` = `min(1, QuoRoundUp(burn, T))`, the very expression of `Model.C11.VS.slash`) is never more than
+10⁻³⁶ below the true fraction `burn / T`, and it is at least the true fraction (`slashExact`) whenever digits 19…36 of the
+quotient are not all zero — i.e. unless the 36-decimal quotient `⌊burn·10³⁶ / T⌋` is a multiple of 10¹⁸ without the
+division being exact.  (`stake_sanity_reachable` is exactly such a case: `slashExact 100 (10²⁰ − 99) = false`.) -/
+theorem slash_fraction_closed_form {burn T : Nat} (hT : 0 < T) (hb : burn ≤ T) :
+    burn * ONE * ONE < effFraction burn T * ONE * T + T ∧
+    (quot36 burn T % ONE ≠ 0 → slashExact burn T = true) :=
+  ⟨effFraction_lower hT hb, slashExact_of_rem hT hb⟩
+
+/-- **sanity_closed_form.**  For a validator with total shares `S > 0`: take a delegator whose starting stake `st` is at
+most the exact token worth of its `sh` shares when the validator had `T0` tokens (`st·S ≤ sh·T0·10¹⁸` — true of the stake
+`TokensFromSharesTruncated(sh)` that `initializeDelegation` and `handlerTransferShares` write: `starting_stake_tight`), and
+ANY list of later slash events, each recorded with `effFraction burn T` for the tokens `T` the validator had at that
+moment and each *exact* (`slashExact`: recorded fraction ≥ true fraction — `slash_fraction_closed_form`), the validator's
+shares unchanged in between, ending at the validator's present tokens.  Then the stake `CalculateDelegationRewards`
+recomputes is at most `TokensFromShares(sh)`, so the SDK's sanity check (tolerance 3·10⁻¹⁸) does not fire: the delegator
+can withdraw and undelegate (`still_withdrawable_iff`).  What is NOT covered: delegations / undelegations of other
+delegators between the starting info and now (they change tokens and shares; an unbonding whose token amount is rounded
+up lowers every remaining delegator's worth by < 10⁻¹⁸ relative) and inexact slashes. -/
+theorem sanity_closed_form {v : VS} {evs : List SlashEv} {T0 sp st sh : Nat} (hS : 0 < v.shares)
+    (hc : SlashChain T0 evs v.tokens) (hp : incrPeriods sp evs) (ht : st * v.shares ≤ sh * T0 * ONE) :
+    stakeAfter evs sp st ≤ v.tokensFromShares sh ∧ ¬ (v.tokensFromShares sh + 3 < stakeAfter evs sp st) := by
+  have h := tight_le_tfs hS (chain_tight evs T0 v.tokens sp st hc hp ht)
+  exact ⟨h, by omega⟩
+
+/-- the stake written by `initializeDelegation` and by `handlerTransferShares` (`transfer_reinitialises`:
+`TokensFromSharesTruncated` of the party's shares) satisfies the hypothesis of `sanity_closed_form` -/
+theorem starting_stake_tight (v : VS) (sh : Nat) : v.tokensFromSharesTrunc sh * v.shares ≤ sh * v.tokens * ONE :=
+  tfsTrunc_tight v sh
+
 /-! ### non-vacuity: the hypotheses are satisfiable on concrete, non-trivial histories -/
 
 /-- a history with a new recipient, an existing recipient, a full transfer, a slash and a self-transfer -/
@@ -1005,5 +1039,15 @@ example :
 -- the refusal while the sender has an incoming redelegation is reachable
 example : isOk (((init 4 1 [(1000, 0), (1000, 0)]).run cfg [.delegate 2 0 500, .delegate 2 1 500, .redelegate 2 0 1 100]).exec cfg
     (.transfer 2 3 1 10)) = false := by decide
+
+-- sanity_closed_form: a chain of two exact slashes (5 % of 10⁶ tokens: the division is exact; then 333 of 950000: the
+-- quotient is rounded up) after a starting stake written for 7·10¹⁸ shares; and the configuration of
+-- `stake_sanity_reachable` is NOT exact
+example : SlashChain 1000000 [⟨3, 5, effFraction 50000 1000000⟩, ⟨7, 9, effFraction 333 950000⟩] 949667 :=
+  .cons (by decide) rfl (by decide) (.cons (by decide) rfl (by decide) (.nil _))
+example : incrPeriods 2 [⟨3, 5, effFraction 50000 1000000⟩, ⟨7, 9, effFraction 333 950000⟩] :=
+  ⟨by decide, by decide, trivial⟩
+example : quot36 333 950000 % ONE ≠ 0 ∧ effFraction 50000 1000000 = 50000000000000000 ∧ slashExact 50000 1000000 = true := by decide
+example : slashExact 100 (100000000000000000000 - 99) = false := by decide
 
 end FxVerif.Props.C11
